@@ -334,3 +334,48 @@ class PerformMerge:
 
     def on_raise_unparsable_file_is_left_alone(output_path, preset, output, exc_class, exc, written, effects):
         return implies(exc_class == "SystemExit", exc == 1 and len(written) == 0 and "fs_write" not in effects)
+
+
+# =================================================================== precedence among the section names ONE rule accepts
+# Property text: "every pre-existing setting keeps its value and stays in effect". init-config knows the collection-
+# pipeline rule only under the template's name `pipeline`; for a file that configures the rule under its documented name
+# (`collection-pipeline:` / `collection_pipeline:`) it appends the template's default `pipeline:` block. The user's
+# section stays in effect only if the rule prefers its own section names over the template alias.
+from contracts.c05_config import PipelineConfigT  # noqa: E402
+
+CPL = "src/linters/collection_pipeline/linter.py::"
+FileCtxT = Rec("FileLintContext", closed=True, file_path=Opt(PathT), file_content=Opt(Str), language=Str, metadata=Any)
+PipelineRuleT = Rec("CollectionPipelineRule", cls=CPL + "CollectionPipelineRule")
+
+
+@contract(CPL + "CollectionPipelineRule._get_config_dict", props=["C05", "C20"], types=dict(self=PipelineRuleT, context=FileCtxT),
+          returns=Any)
+class PipelineGetConfigDict:
+    """For the context the orchestrator builds (no `config` attribute): the metadata, i.e. the loaded configuration."""
+
+    def value(context):
+        return context.metadata
+
+
+def pipeline_section(md):
+    """The section the rule is configured by: its own names first, the template's `pipeline` alias next, else the dict."""
+    return md["collection_pipeline"] if "collection_pipeline" in md else (
+        md["collection-pipeline"] if "collection-pipeline" in md else (md["pipeline"] if "pipeline" in md else md))
+
+
+@contract(CPL + "CollectionPipelineRule._load_config", props=["C05", "C20"],
+          types=dict(self=PipelineRuleT, context=FileCtxT, config_dict=Any, linter_config=Any), returns=PipelineConfigT,
+          raises=["ValueError"])
+class PipelineLoadConfig:
+    def requires(context):
+        return isinstance(context.metadata, dict) and isinstance(pipeline_section(context.metadata), dict) \
+            and implies("min_continues" in pipeline_section(context.metadata),
+                        isinstance(pipeline_section(context.metadata)["min_continues"], int))
+
+    def raises_when(context):
+        return pipeline_section(context.metadata).get("min_continues", 1) < 1
+
+    def ensures_own_section_wins_over_the_template_alias(context, result):
+        return result.enabled == pipeline_section(context.metadata).get("enabled", True) \
+            and result.min_continues == pipeline_section(context.metadata).get("min_continues", 1) \
+            and result.ignore == pipeline_section(context.metadata).get("ignore", [])
